@@ -245,9 +245,16 @@ func generate(r *gen.Rand, tier string, big bool) *gcase {
 	if r.Chance(1, 6) {
 		k0 = 0
 	}
-	span := r.Range(1, 5)
+	// every window with a sample costs about a second of CPU in promtool (a fresh Head per
+	// block), so the quick tier keeps the number of windows small
+	span := r.Range(1, 3)
+	if tier == "thorough" {
+		span = r.Range(1, 5)
+	}
+	sparse := false
 	if r.Chance(1, 8) {
 		span = r.Range(6, 14) // gaps of several empty block ranges (nextSampleTs skip)
+		sparse = true
 	}
 	type pt struct {
 		ser int
@@ -256,6 +263,9 @@ func generate(r *gen.Rand, tier string, big bool) *gcase {
 	var per [][]pt
 	for s := 0; s < nser; s++ {
 		n := 1 + r.Intn(perSer)
+		if sparse && !big {
+			n = 1
+		}
 		var l []pt
 		for _, t := range pickTs(r, d, k0, span, n) {
 			l = append(l, pt{s, t})
@@ -733,8 +743,8 @@ func main() {
 
 	var cases []*gcase
 	cases = append(cases, corpus()...)
-	n := f.Count(40, 1500)
-	nbig := f.Count(1, 12)
+	n := f.Count(24, 600)
+	nbig := f.Count(1, 8)
 	for i := 0; i < n; i++ {
 		r := gen.Fork(f.Seed, i)
 		cases = append(cases, generate(r, f.Tier, i >= n-nbig))
